@@ -75,6 +75,19 @@ def isliceS (start step : Nat) : Stage α α Nat :=
      | c + 1 => (c, []),
    fun _ => []⟩
 
+/-- `attack(a, d, s)` with an iterable sustain `s`, seen from the sustain source:
+
+        it_s = iter(s);  s = next(it_s)          -- on the FIRST demand (generator body)
+        <len_a + len_d yields: the attack and decay lines>   -- need only that first item
+        for s in it_s: yield s                   -- then one item per output
+
+    `n = int(a + .5) + int(d + .5)`; the first sustain item only fixes the slope of the decay
+    line and is not yielded itself.  `line` is the value of the `i`-th line sample. -/
+def attackS (n : Nat) (line : α → Nat → α) : Stage α α Bool :=
+  ⟨true, [],
+   fun first x => if first then (false, (List.range n).map (line x)) else (false, [x]),
+   fun _ => []⟩
+
 /-! ### block stages -/
 
 /-- `blocks(seq, size, hop, padval)` — the very state machine of `ALV.C08` as a Stage -/
@@ -275,6 +288,7 @@ inductive Desc where
   | resample (order : Nat) (step : Rat)
   | resampleTV (order : Nat) (steps : List Rat)   -- time-varying step (values of the step stream)
   | smix (delta : Rat)
+  | attack (n : Nat)              -- `attack(a, d, <iterable>)`: n = len_a + len_d line samples
   deriving Repr
 
 def u1 : Unit → Unit := fun _ => ()
@@ -315,6 +329,7 @@ def build : Desc → AnyStage
   | .resample order step => ⟨_, resampleS order step⟩
   | .resampleTV order steps => ⟨_, resampleTVS order steps⟩
   | .smix delta => ⟨_, smixS delta ()⟩
+  | .attack n => ⟨_, attackS n (fun _ _ => ())⟩
 
 def buildChain : List Desc → AnyStage
   | [] => ⟨_, mapS u1⟩
